@@ -5,7 +5,7 @@
 cd "$(dirname "$0")/.."
 OUT=${1:-/tmp/thorough_out}
 mkdir -p $OUT
-for p in ${CHECKS:-C17 C19 C08 C10 C02 C12 C06 C07 C16 C05 C14 C01 C03 C04 C09 C11 C13}; do
+for p in ${CHECKS:-C17 C18 C19 C08 C10 C02 C12 C06 C07 C16 C05 C14 C01 C03 C04 C09 C11 C13}; do
   s=$(date +%s)
   VERIF_EVIDENCE_DIR=$OUT ./vcheck $p thorough > $OUT/$p.log 2>&1
   rc=$?
